@@ -33,6 +33,11 @@ CLAIMS = {
              note='misuse arguments are the concrete ones of the table (the for-all is over grid values); garbage streams are short fixed strings; arbitrary byte tapes / all 32-bit scalars (engine A front-end harness) not built', tech=B),
  'C15': dict(engine='fpsym', text='bounded symbolic execution of the real SampleDREAM template with symbolic random stream over the closed [0,1], weights, pdf values and domain verdicts; z3 enumerates index-conversion / Metropolis / verdict classes (endpoint draws are constructed), ASan observes memory faults on each class representative, book-keeping identities are decided per class',
              note='reals instead of doubles on symbolic data, log/cos/sqrt uninterpreted; chains<=3, dims<=2, <=3 iterations; budgeted classes (complete only where evidence says so); acceptance draws assumed consumed in chain order after the batch evaluation', tech=B),
+ 'C17': dict(engine='trace-smt', text='the real sequential constructSurrogate runs under strace; crash position and torn-write length over the recorded file-system trace are z3 integers, the two-file recovery invariant is the assertion; the counterexample (sat) or a solver-chosen representative of every file-state class (unsat) is materialised on disk and the real function is restarted on it',
+             note='crash model is an assumption (prefix semantics of truncated, unclosed files); sequential mode only; budgets 4-6, batch 1-2; one crash per history; two open known findings (backup never written; parked samples not counted on restart)',
+             tech='native trace (strace) + z3 over (crash position, torn length) + replay of every class on the real code'),
+ 'C18': dict(engine='fpsym', text='schedule-independent clauses only: CandidateManager with symbolic candidate coordinates and solver-enumerated budgets through next/complete/re-assign sequences; real constructSurrogate (threads, one schedule per class) and threaded loadNeededValues with symbolic model values: budget, exactly-once, value association (symbol identity), reproduction',
+             note='NOT claimed: data races, deadlock, lost wake-ups, same-thread-id concurrency over all interleavings (no engine for the threaded IR here); <=3 candidates, dims<=2, budget 1..8, jobs<=4', tech=B),
  'C19': dict(engine='fpsym', text='bounded symbolic execution of the real GradientDescent code with an SMT solver deciding every obligation for all callback values of each path class; classes enumerated by the solver up to a coverage certificate or the class budget',
              note='reals instead of IEEE doubles on symbolic data; dims<=2, cap<=4, concrete stepsize parameters; clang-14, fpsym pass/runtime, z3 trusted', tech=B),
 }
@@ -47,6 +52,7 @@ m = {'version': 1, 'setup_cmd': './setup.sh',
                'baseline_off_cmd': 'cmake --build /repo/_build && ctest --test-dir /repo/_build -j8 --timeout 900', 'source_commits': [], 'add_only': True},
      'engines': [{'name': 'fpsym', 'path': 'engines/fpsym', 'serves_properties': sorted(k for k, v in CLAIMS.items() if 'fpsym' in v['engine']),
                   'kind_free_text': 'LLVM-14 pass + runtime: shadow-symbolic execution of doubles in the real code; z3 decides obligations per path class and certifies coverage of the input box'},
+                 {'name': 'trace-smt', 'path': 'props/C17.py', 'serves_properties': ['C17'], 'kind_free_text': 'strace-recorded file-system trace of the real run + z3 over crash position and torn length + replay on materialised crash states'},
                  {'name': 'ir2c', 'path': 'engines/ir2c', 'serves_properties': sorted(k for k, v in CLAIMS.items() if 'ir2c' in v['engine']),
                   'kind_free_text': 'LLVM IR -> C translator + CBMC 6.11 bounded model checking of leaf kernels and small integer units'}],
      'checks': [], 'not_applicable': [], 'notes': 'see DESIGN.md; known findings in known_findings.json'}
